@@ -534,9 +534,38 @@ func (w *hijackRW) Hijack() (net.Conn, *bufio.ReadWriter, error) {
 	return w.conn, bufio.NewReadWriter(w.br, bufio.NewWriter(w.conn)), nil
 }
 
+// bufRWConn is the connection as an application holds it after a hijack:
+// behind a *bufio.ReadWriter, which it keeps using after the upgrade.
+type bufRWConn struct {
+	net.Conn
+	rw *bufio.ReadWriter
+}
+
+func (c *bufRWConn) Read(p []byte) (int, error) { return c.rw.Read(p) }
+func (c *bufRWConn) Write(p []byte) (int, error) {
+	n, err := c.rw.Write(p)
+	if err == nil {
+		err = c.rw.Flush()
+	}
+	return n, err
+}
+
 // runServer is the server task of a session.
 func runServer(sc *script, conn net.Conn, tr *transcript) {
 	s := &side{sc: sc, conn: conn, client: false, tr: tr, state: ws.StateServerSide}
+	// Some servers hand the upgrader the *bufio.ReadWriter they hold the
+	// connection behind (buffers of the default size, which is also a size the
+	// library's own pools keep) and go on using it afterwards.
+	var upgradeOn io.ReadWriter = conn
+	afterUpgrade := func() {}
+	if sc.Seed%5 == 2 && sc.BadReq == 0 && sc.Vanish == 0 {
+		rw := bufio.NewReadWriter(bufio.NewReaderSize(conn, 4096), bufio.NewWriterSize(conn, 4096))
+		upgradeOn = rw
+		afterUpgrade = func() {
+			rw.Flush()
+			s.conn = &bufRWConn{Conn: conn, rw: rw}
+		}
+	}
 	var (
 		hs  ws.Handshake
 		err error
@@ -555,7 +584,8 @@ func runServer(sc *script, conn net.Conn, tr *transcript) {
 	switch sc.SrvKind {
 	case 0:
 		if !sc.SrvDebug {
-			hs, err = ws.Upgrade(conn)
+			hs, err = ws.Upgrade(upgradeOn)
+			afterUpgrade()
 		}
 	case 1:
 		ext := wsflate.Extension{Parameters: sessionParams(sc)}
@@ -581,7 +611,8 @@ func runServer(sc *script, conn net.Conn, tr *transcript) {
 				return nil
 			}
 		}
-		hs, err = u.Upgrade(conn)
+		hs, err = u.Upgrade(upgradeOn)
+		afterUpgrade()
 	case 3:
 		var seen []httphead.Option // semantic copies, taken while the views are valid
 		u := ws.Upgrader{
